@@ -1367,7 +1367,13 @@ pub fn run(args: &Args, rep: &mut Report) {
     if arena.is_none() && !args.miri() {
         rep.inconclusive("cannot reserve an address range for RawMemoryFreeList; raw scenarios skipped");
     }
+    // A corrupted link makes the list's own loops spin for ever: every history runs under the CPU
+    // watchdog (a history takes milliseconds; 60 s of CPU inside one is non-termination).
+    let miri = args.miri();
+    let arena_ref = &arena;
+    let body = |rep: &mut Report, hb: &crate::wdog::Heartbeat| {
     for h in 0..histories {
+        hb.enter("freelist:history", || format!("seed={} history {} (scenario {}): an alloc/free/size call of the free list does not return", seed, h, h % 10));
         let ops = match rng.below(4) {
             0 => 40,
             1 => 150,
@@ -1376,21 +1382,28 @@ pub fn run(args: &Args, rep: &mut Report) {
         };
         // (under Miri only the single-list scenario: child lists alias their parent through raw
         // pointers by design, which the experimental aliasing model rejects in the harness itself)
-        match if args.miri() { 0 } else { h % 10 } {
+        match if miri { 0 } else { h % 10 } {
             0 | 1 | 2 => scen_generic(rep, &mut rng, seed, h, ops, selftest),
             3 | 4 => scen_multihead(rep, &mut rng, seed, h, ops),
             5 | 6 => scen_map32(rep, &mut rng, seed, h, ops),
             7 | 8 => {
-                if let Some(a) = &arena {
+                if let Some(a) = arena_ref {
                     scen_raw_generic(rep, &mut rng, a, seed, h, ops)
                 }
             }
             _ => {
-                if let Some(a) = &arena {
+                if let Some(a) = arena_ref {
                     scen_map64(rep, &mut rng, a, seed, h, ops)
                 }
             }
         }
+        hb.leave();
+    }
+    };
+    if miri {
+        crate::wdog::run_without_watchdog(rep, body);
+    } else {
+        crate::wdog::run_with_watchdog(rep, body);
     }
     rep.note("alloc may pick any sufficiently large free run of its head; free() coalescing across heads, alloc_from_unit/size/marks on interior units and free() of non-allocated units are outside the protocol and never generated");
     rep.note("RawMemoryFreeList is built stand-alone exactly as Map64 does (it mmaps its own table with OS::dzmmap, not through MMAPPER); block sizes are restricted to divisors of the table size here so that the growth defect covered by C27 is not hit");
